@@ -290,7 +290,7 @@ impl<'a> IExec<'a> {
             Dev::SourceAddressNotHub => del.source_address = "not-the-hub-address".to_string(),
             _ => {}
         }
-        let mut approved = MMsg { source_chain: del.source_chain.clone(), message_id: del.message_id.clone(), source_address: del.source_address.clone(), contract: addr_bytes(&its), payload_hash: keccak(&payload) };
+        let mut approved = MMsg { source_chain: del.source_chain.clone(), message_id: del.message_id.clone(), source_address: del.source_address.clone(), contract: addr_bytes(&its), payload_hash: keccak(&payload), account: false };
         let mut dest = its.clone();
         let mut do_approve = true;
         match dev {
@@ -330,7 +330,7 @@ impl<'a> IExec<'a> {
         let key = (del.source_chain.clone(), del.message_id.clone());
         // ---- verdict
         let mut reasons: Vec<&'static str> = vec![];
-        let claimed = MMsg { source_chain: del.source_chain.clone(), message_id: del.message_id.clone(), source_address: del.source_address.clone(), contract: addr_bytes(&its), payload_hash: keccak(&del.payload) };
+        let claimed = MMsg { source_chain: del.source_chain.clone(), message_id: del.message_id.clone(), source_address: del.source_address.clone(), contract: addr_bytes(&its), payload_hash: keccak(&del.payload), account: false };
         match self.m.gw.get(&key) {
             Some(GStat::Approved(m)) if *m == claimed => {}
             Some(GStat::Approved(_)) => reasons.push("approval-does-not-match-delivery"),
